@@ -13,21 +13,34 @@ RULE = ("square matrices of order 1..8 over Rat/f64/Complex: dense, sparse-patte
         "non-trivial = order >= 2")
 TRUSTED = c01.TRUSTED
 ASSUMPTIONS = ["Rust semantics of Vec/usize as modelled", "float accuracy of det/inverse is searched, not proved",
-               "'matrix unchanged' is observed by the executor (snapshot before/after); a value model satisfies it vacuously"]
-UNPROVED = ["rounding accuracy of det/inverse over f64/Complex (covered by tie + search)"]
+               "'matrix unchanged' is observed by the executor (snapshot before/after); a value model satisfies it vacuously",
+               "the theorems assume FieldLaws + PivLaws of the element arithmetic; both are proved for Qc, R, C = R[i] and mathcomp's rat (not for floats, which are no field)"]
+UNPROVED = ["rounding accuracy of det/inverse over f64/Complex (covered by tie + search)",
+            "determinant = \\det is proved for arithmetics built from a mathcomp fieldType (ArithOf F); at the Qc instance used by the exact tier the "
+            "same generic function is covered by lu_spec/determinant_sign_rule (abstract field) and by the Fraction oracle, not by a \\det statement"]
 
 MANIFEST = dict(
-    text=("Theorems over any field with a sane magnitude/order (all orders n, all entry values, singular input included) about the Gallina model "
-          "of src/matrix/solve.rs: lu_decomp always succeeds with P*M = unit_lower(LU)*upper(LU), P reached by `pivots` genuine row transpositions; "
-          "solve_lu and inverse, when they return, satisfy M*x = b and M*N = I; (mathcomp bridge) determinant = \\det for every fieldType. "
-          "The model is run against the implementation (Rat vs Qc exact; f64/Complex vs primitive floats) on orders 1..8 of dense, permutation-like, "
-          "triangular and singular (rank n-1, rank <= n-2, zero rows/columns) matrices, and an independent exact determinant / two-sided inverse "
-          "identity searches for a failing input; the operand is compared with a clone taken before the call."),
-    note=("Rounding accuracy over f64/Complex<f64> is tied and searched, not proved. 'Matrix unchanged' is a run-time observation of the executor "
-          "(a value model satisfies it vacuously). The theorems need PivLaws (abs x = 0 <-> x = 0, 0 < |x| for x <> 0, not |x| < 0): the code's "
-          "skip of a zero pivot column is decided by abs and >."),
-    technique="Coq proof over an abstract field (loop invariants of the in-place LU) + mathcomp bridge for \\det + model/implementation differential execution",
-    design="7 (C02)")
+    text=("Theorems (every order n, every entry value, singular input included; Coq, closed under the global context) about the Gallina model "
+          "of src/matrix/solve.rs over any field with a magnitude (FieldLaws + PivLaws, both proved for Qc, R and C=R[i]): lu_decomp_in_place "
+          "always returns and P*M = unit_lower(LU)*upper(LU) with P the identity permuted by `pivots` genuine row transpositions (lu_spec); "
+          "determinant never panics and is (+/-) the product of U's diagonal with the sign given by the parity of the exchanges "
+          "(determinant_sign_rule, determinant_total); for every mathcomp fieldType the code's determinant IS \\det (determinant_is_det), hence "
+          "0 on every singular matrix, sign flip under a row exchange, multiplicativity (determinant_singular_zero/_row_swap/_mul); inverse, "
+          "when it returns, is a two-sided inverse and the only one (inverse_right, inverse_two_sided, inverse_unique); it returns exactly on "
+          "nonsingular input and panics with DivZero exactly on singular input (inverse_complete, inverse_returns_iff_nonsingular, "
+          "inverse_panics_iff_singular, inverse_result); solve_lu is sound and complete (the LU half of C01). The pre-repair determinant is "
+          "refuted on the committed witnesses (Legacy/C02Refuted.v). The same Gallina functions are run against the implementation on every "
+          "check (Rat vs Qc exact; f64/Complex<f64> vs primitive floats, bit-compared) on orders 1..8 of dense, zero-leading, permutation-like, "
+          "triangular and singular (rank n-1, rank <= n-2, zero rows/columns, all-ones) matrices with odd and even numbers of exchanges; an "
+          "independent exact determinant (Fraction elimination, real and complex), the two-sided inverse identity and P*A = L*U itself are "
+          "evaluated on the implementation's answers to search for a failing input; the operand is compared with a clone taken before the call."),
+    note=("Partial: rounding accuracy of det/inverse over f64/Complex<f64> is tied (bitwise against the float model) and searched (1e-10/1e-9 "
+          "scaled tolerances), not proved. 'Matrix left intact' is true by typing in a value model; in Rust it is a run-time observation of the "
+          "executor (snapshot before/after). PivLaws (abs x = 0 <-> x = 0; x <> 0 -> 0 < |x|; not |x| < 0) is an auxiliary hypothesis the code "
+          "genuinely needs (the skip of a zero pivot column is decided by Signed::abs and PartialOrd); it is proved for Qc, R, C and mathcomp's rat."),
+    technique=("Coq 8.16 proof over an abstract field (loop invariants of the in-place LU, substitution loops as written, checked indexing) + "
+               "mathcomp 1.15 bridge for \\det / mulmx1C + model/implementation differential execution (vm_compute vs Rust executor) + exact python oracle"),
+    design="7 (C02), Appendix E (statements gain PivLaws; see Props/C02.v header)")
 
 def singular(rng, n, kind):
     one = Fraction(1)
